@@ -1,6 +1,6 @@
 #!/usr/bin/env python3
 """Run the repository's test suite (guard off = unmodified build) and compare with /root/.vp/BASELINE.json:
-every test in stable_pass must still pass.  Usage: baseline_compare.py [repo]"""
+every test in stable_pass must still pass.  Usage: baseline_compare.py [repo [file-to-write-the-passing-test-names-to]]"""
 import json, re, subprocess, sys, os
 repo = sys.argv[1] if len(sys.argv) > 1 else '/repo'
 base = json.load(open('/root/.vp/BASELINE.json'))
@@ -18,6 +18,9 @@ for line in p.stdout.splitlines():
     m = re.match(r'test (\S+)(?: - should panic)? \.\.\. (ok|FAILED|ignored)', line)
     if m and binary is not None:
         (ok if m.group(2) == 'ok' else bad).add('truth::' + binary + m.group(1))
+if len(sys.argv) > 2:
+    open(sys.argv[2], 'w').write('\n'.join(sorted(ok)) + '\n')
+    open(sys.argv[2] + '.failed', 'w').write('\n'.join(sorted(bad)) + '\n')
 missing = [t for t in base['stable_pass'] if t not in ok]
 print('passed', len(ok), 'failed', len(bad), 'baseline', len(base['stable_pass']), 'baseline tests not passing now:', len(missing))
 for t in missing[:40]: print('  NOT PASSING:', t)
